@@ -159,11 +159,13 @@ void bn_set_bit(bn_t a, uint_t bit, int value) {
 	}
 
 	if (value == 1) {
-		a->dp[d] |= ((dig_t)1 << bit);
 		if ((d + 1) > a->used) {
+			/* The digits above the current length were never written. */
+			dv_zero(a->dp + a->used, d + 1 - a->used);
 			a->used = d + 1;
 		}
-	} else {
+		a->dp[d] |= ((dig_t)1 << bit);
+	} else if (d < a->used) {
 		a->dp[d] &= ~((dig_t)1 << bit);
 		bn_trim(a);
 	}
